@@ -50,6 +50,8 @@ def alphabet(N):
         ("CallerOverwritesItsBoundArrays", None),
         # a box that is inverted in one coordinate: this version takes it as it is; a version that refuses it (raises)
         # must leave the object with the box it had - either way the object answers like a fresh one with "its" box
+        # the caller uses the arrays it got back as scratch space (sorts / overwrites them in place): they are the caller's
+        ("CallerOverwritesReturnedArrays", None),
         ("SetBoundsMaybeRefused", ([b1[0][i] + 0.5 for i in range(N)], [b1[1][i] if i else b1[0][i] - 0.25 for i in range(N)])),
     ]
     return ops
@@ -127,6 +129,12 @@ def execute(N, m, seq, ops, init="B1"):
         if op[0] == "SetBounds":
             cur = (np.array(op[1][0], dtype=float), np.array(op[1][1], dtype=float))
         try:
+            if op[0] == "CallerOverwritesReturnedArrays":
+                for q, (arr, b, st) in enumerate(returned):
+                    if arr.flags.writeable:
+                        arr[...] = 123.25 + q
+                        returned[q] = (arr, arr.tobytes(), st)
+                continue
             r, untouched = apply(ev, op)
             if op[0] == "SetBoundsMaybeRefused":
                 if r == "accepted":
@@ -254,7 +262,9 @@ def run(ctx):
         closed[f"N={N},m={m},built from {init}"] = dict(states=ns, transitions=nt, closed=cl)
         res.merge_violations(viol)
     L = 5 if th else 4
-    tasks = [(N, m, init, l, f) for (N, m, init) in cfgs for l in range(1, L + 1) for f in range(len(alphabet(N)))]
+    # the longest sequences for the first six configurations; one call less for the others (the alphabet has 19 operations)
+    tasks = [(N, m, init, l, f) for ci, (N, m, init) in enumerate(cfgs) for l in range(1, (L if ci < 6 else L - 1) + 1)
+             for f in range(len(alphabet(N)))]
     seqs = 0
     for t, (n, viol) in zip(tasks, pmap(unmerged, tasks)):
         seqs += n
